@@ -41,6 +41,8 @@ fn main() {
       let start = std::time::Instant::now();
       let report: Report = match prop.as_str() {
         "C14" => dgh::c14::run(&tier, seed),
+        "C15" => dgh::walkprops::run_c15(&tier, seed),
+        "C02" => dgh::walkprops::run_c02(&tier, seed),
         _ => {
           eprintln!("unknown property {}", prop);
           std::process::exit(2)
